@@ -2,6 +2,7 @@
 from engine import *
 import obligations
 import provenance
+import guards
 import mutations
 import eventloops
 import re
@@ -431,3 +432,4 @@ RULES.append(('10.u', 'obligation-carrying values returned by workspace calls (t
 RULES.append(('10.t', 'identity comparisons: every reviewed (function, identity type) == / != comparison (HTLCSource, Txid, OutPoint, ChannelId, PaymentHash, PublicKey, ...) is still made - a function does not silently change what it matches by (rules/provenance.py)', lambda F: provenance.ids_for_property(F, 'C10', '10.t')))
 RULES.append(('10.M', 'collection mutations: every reviewed (function, stored collection, mutator class: add / remove / filter / empty / swap / order) triple is still present - an entry that is no longer removed, inserted or drained on one path (rules/mutations.py)', lambda F: mutations.for_property(F, 'C10', '10.M')))
 RULES.append(('10.E', 'event replay: the count of events drained from pending_events (ChannelManager, ChannelMonitor, ChainMonitor; sync and async expansions) is advanced only on the Ok arm of the handler result - an event whose handler failed stays queued and is replayed (rules/eventloops.py)', lambda F: eventloops.rule(F, '10.E', r'.', 5)))
+RULES.append(('10.G', 'guard census: no reviewed call of a workspace function and no reviewed mutation of a stored collection gained a controlling branch condition (an added `&& cond`, early return / continue, more specific match arm in front of an act); counts per call site, name free (rules/guards.py)', lambda F: guards.for_property(F, 'C10', '10.G')))
